@@ -9,10 +9,180 @@ R16-err      tokenize(): a failed load of an include file produces IncludeFileEr
 R03-rec      (shared with C03) the include recursion is unbounded: a self-including file aborts - reported under C03
 """
 import re
-from . import genrules, mir, sym, guards, diag, panics
+import json
+import os
+from . import genrules, mir, sym, guards, diag, panics, common
 from .common import Finding
 
 GID = "a2ml::GenericIfData"
+
+
+def dispatch_rows(prog):
+    """[token type, reaching condition within one pass of the scanner loop] for every token built in tokenize_core"""
+    A = sym.Analyzer(prog, opaque=[r"tokenizer::.*", r"loader::.*", r"a2ml::.*"])
+    b = prog.bodies.get("tokenizer::tokenize_core")
+    if b is None:
+        return None
+    S = A.summary(b.id)
+    out = []
+    for bi, si, st in b.stmts():
+        if st["k"] == "assign" and st["rv"]["r"] == "agg" and st["rv"].get("adt") == "tokenizer::A2lToken":
+            pl = mir.op_place(st["rv"]["ops"][st["rv"]["fields"].index("ttype")])
+            v = None
+            for bj, sj, s2 in b.stmts():
+                if pl is not None and s2["k"] == "assign" and not s2["p"]["p"] and s2["p"]["l"] == pl["l"] and s2["rv"]["r"] == "agg":
+                    v = s2["rv"].get("v")
+            out.append([v or "?", canon(guards.reach_formula(b, S, bi)), b.where(st["ln"])])
+    return out
+
+
+def canon(f):
+    """and/or flattened and operands ordered: the same condition written in a different order is the same row"""
+    if isinstance(f, list) and f and f[0] in ("and", "or"):
+        ops = []
+        for x in f[1:]:
+            c = canon(x)
+            if isinstance(c, list) and c and c[0] == f[0]:
+                ops += c[1:]
+            else:
+                ops.append(c)
+        uniq = []
+        for o in sorted(ops, key=lambda o: json.dumps(o, sort_keys=True)):
+            if o not in uniq:
+                uniq.append(o)
+        return [f[0]] + uniq if len(uniq) != 1 else uniq[0]
+    if isinstance(f, list):
+        return [canon(x) if isinstance(x, list) and x and x[0] in ("and", "or") else x for x in f]
+    return f
+
+
+def _ctx_root(b, pl):
+    """local that holds the ParseContext a place `(*)ctx.field` is read from (references followed)"""
+    l = pl["l"]
+    for _ in range(8):
+        nxt = None
+        for blk in b.blocks:
+            for st in blk["s"]:
+                if st["k"] == "assign" and not st["p"]["p"] and st["p"]["l"] == l:
+                    rv = st["rv"]
+                    src = rv["p"] if rv["r"] == "ref" else (mir.op_place(rv["a"]) if rv["r"] == "use" else None)
+                    if src is not None and all(x == "*" for x in src["p"]):
+                        nxt = src["l"]
+        if nxt is None or nxt == l:
+            break
+        l = nxt
+    return l
+
+
+def _field_src(b, l, field, depth=0):
+    """follow plain copies of local l back to a read `<place>.field` of a ParseContext; returns that place or None"""
+    if depth > 6:
+        return None
+    for bj, sj, s2 in b.stmts():
+        if s2["k"] == "assign" and not s2["p"]["p"] and s2["p"]["l"] == l and s2["rv"]["r"] == "use":
+            src = mir.op_place(s2["rv"]["a"])
+            if src is None:
+                continue
+            if src["p"] and isinstance(src["p"][-1], dict) and src["p"][-1].get("f") == field and src["p"][-1].get("adt") == "parser::ParseContext":
+                return src
+            if not src["p"]:
+                r = _field_src(b, src["l"], field, depth + 1)
+                if r is not None:
+                    return r
+    return None
+
+
+def _call_def(b, l, suffix, depth=0):
+    if depth > 6:
+        return None
+    for bj, t in b.calls():
+        if t.get("dest") and not t["dest"]["p"] and t["dest"]["l"] == l and mir.strip_generics(t.get("res") or "").endswith(suffix):
+            return t
+    for bj, sj, s2 in b.stmts():
+        if s2["k"] == "assign" and not s2["p"]["p"] and s2["p"]["l"] == l and s2["rv"]["r"] == "use":
+            src = mir.op_place(s2["rv"]["a"])
+            if src is not None and not src["p"]:
+                r = _call_def(b, src["l"], suffix, depth + 1)
+                if r is not None:
+                    return r
+    return None
+
+
+def r16_origin(chk, prog, rule="R16-origin"):
+    """an element's include origin (`incfile`) and its `line` describe the same token: wherever a value with both fields is built from
+    a ParseContext, get_incfilename() is given the fileid of the very context whose line is stored (taking the file of the
+    enclosing context makes the writer emit the element inline and its children as /include, or the reverse)"""
+    n = 0
+    for fid, b in sorted(prog.bodies.items()):
+        if not (b.file or "").startswith("a2lfile/src/"):
+            continue
+        for bi, si, st in b.stmts():
+            if st["k"] != "assign" or st["rv"]["r"] != "agg":
+                continue
+            f = st["rv"].get("fields") or []
+            if "incfile" not in f or "line" not in f:
+                continue
+            inc = mir.op_place(st["rv"]["ops"][f.index("incfile")])
+            lin = mir.op_place(st["rv"]["ops"][f.index("line")])
+            if inc is None or lin is None or inc["p"] or lin["p"]:
+                continue
+            src = _field_src(b, lin["l"], "line")
+            lroot = _ctx_root(b, src) if src is not None else None
+            iroot = None
+            t = _call_def(b, inc["l"], "::get_incfilename")
+            if t is not None and len(t["args"]) >= 2:
+                a = mir.op_place(t["args"][1])
+                if a is not None and not a["p"]:
+                    src = _field_src(b, a["l"], "fileid")
+                    iroot = _ctx_root(b, src) if src is not None else None
+            if lroot is None or iroot is None:
+                continue
+            n += 1
+            if lroot != iroot:
+                chk.add(Finding(rule, "%s::%s::%s" % (rule, mir.strip_generics(fid), st["rv"].get("adt", "?").split("::")[-1]), "%s builds a %s whose `line` comes from the context `%s` but whose include origin is looked up with the fileid of `%s`: the element is attributed to a different file than the token it starts with" % (fid, st["rv"].get("adt"), b.local_name(lroot), b.local_name(iroot)), b.where(st["ln"])))
+    chk.rule(rule, "values built with both `incfile` and `line`: both taken from the same ParseContext", n, floor=172)
+
+
+RESOLVE_CALLS = re.compile(r"(Path::(new|parent|join|exists|is_absolute|is_file|is_relative|with_file_name)|PathBuf::(push|from|join)|OsString::from|From<.*>>::from|::from|str::replace|::replace|Option::filter|canonicalize)$")
+
+
+def resolve_table(prog):
+    """decisions of loader::make_include_filename: which candidate path is built and returned under which tests"""
+    A = sym.Analyzer(prog, opaque=[r"loader::.*"])
+    fids = [f for f in ("loader::make_include_filename",) if f in prog.bodies]
+    fids = diag.with_new_functions(prog, fids)
+    return diag.module_table(prog, A, fids, RESOLVE_CALLS, cursors=False)
+
+
+def r16_dispatch(chk, prog, rule="R16-dispatch"):
+    """the scanner's if/else-if chain decides by precedence which kind of token a character starts (an unquoted include path is tried
+    before an identifier, a block keyword before a path ...): per token kind, the condition under which it is built within one
+    pass of the loop equals the reviewed one (logically, or up to the order of operands where the operand descriptions are too
+    coarse to decide equivalence)"""
+    cur = dispatch_rows(prog)
+    pth = os.path.join(common.VERIF, "oracle", "token_dispatch.json")
+    n = 0
+    if cur is None or not os.path.exists(pth):
+        chk.add(Finding(rule, rule + "::anchor", "tokenizer::tokenize_core or oracle/token_dispatch.json not found"))
+    else:
+        ora = json.load(open(pth))["rows"]
+        left = list(cur)
+        n = len(cur)
+        for tt, fo in ora:
+            hit = None
+            for r in left:
+                if r[0] != tt:
+                    continue
+                if json.dumps(r[1], sort_keys=True) == json.dumps(fo, sort_keys=True) or guards.equivalent(fo, r[1]) is True:
+                    hit = r
+                    break
+            if hit is not None:
+                left.remove(hit)
+            else:
+                chk.add(Finding(rule, "%s::%s::missing" % (rule, tt), "tokenize_core no longer builds a %s token under the reviewed condition (precedence of the scanner's branches changed, or a test was altered)" % tt, "a2lfile/src/tokenizer.rs"))
+        for r in left:
+            chk.add(Finding(rule, "%s::%s::new" % (rule, r[0]), "tokenize_core builds a %s token under a condition that is not in the reviewed table" % r[0], r[2]))
+    chk.rule(rule, "token constructions in tokenize_core with their in-iteration reaching condition, compared with the reviewed table", n, floor=10)
 
 
 def tokenizer_table(prog):
@@ -156,7 +326,10 @@ def run(chk):
     chk.rule("R16-ifdata", "GenericIfData variants that contain further items / carry an include origin handled by merge_includes", n, floor=8)
 
     r16_fileid(chk)
+    r16_dispatch(chk, prog)
+    r16_origin(chk, prog)
 
+    diag.compare(chk, "R16-resolve", "resolve", resolve_table(prog), "include path resolution (make_include_filename): separator normalisation, absolute paths, the directory of the including file tried first, fallback to the name as written; compared with the reviewed table", floor=5)
     # ------------------------------------------------------------------ R16-err
     diag.compare(chk, "R16-err", "tokenizer", tokenizer_table(prog), "include handling in tokenize()/tokenize_include(): error constructions and nested calls with their control predicates, compared with the reviewed table", floor=8)
     chk.assumptions += ["not decided: model equality with the flattened text; path resolution on disk"]
